@@ -539,9 +539,9 @@ func showInJS(env *env, out io.Writer, value any) error {
 		}
 		return err
 	case reflect.Slice:
-		if b, ok := value.([]byte); ok {
+		if v.Type().Elem() == byteSliceType.Elem() {
 			w := newStringWriter(out)
-			return escapeBytes(w, b, true)
+			return escapeBytes(w, v.Bytes(), true)
 		}
 		if v.IsNil() {
 			s = "null"
@@ -742,9 +742,9 @@ func showInJSON(env *env, out io.Writer, value any) error {
 		}
 		return err
 	case reflect.Slice:
-		if b, ok := value.([]byte); ok {
+		if v.Type().Elem() == byteSliceType.Elem() {
 			w := newStringWriter(out)
-			return escapeBytes(w, b, true)
+			return escapeBytes(w, v.Bytes(), true)
 		}
 		if v.IsNil() {
 			s = "null"
